@@ -236,12 +236,17 @@ Inductive mkres :=
 | MkErr (cls : N)            (* 1 multiplex TLS/not TLS, 2 build error, 3 incompatible same name *)
 | MkGroup (g : amap gval).
 
+(* a nil entry is replaced by new(Config) — no host name, TLS disabled — and then treated like
+   every other config *)
+Definition nil_cfg : tcfg := mkT [] false 0 0 [] [] [] false 0 [] false.
+Definition cfg_of (o : option tcfg) : tcfg := match o with Some c => c | None => nil_cfg end.
+
 Fixpoint mk_loop (dc : list N) (bad : list bytes) (i : nat) (prev : option bool)
          (cs : list (option tcfg)) (m : amap gval) : N + amap gval :=
   match cs with
   | [] => inr m
-  | None :: r => mk_loop dc bad (S i) (Some false) r m
-  | Some c :: r =>
+  | o :: r =>
+    let c := cfg_of o in
     if match prev with Some p => negb (Bool.eqb (enabled c) p) | None => false end then inl 1
     else match build dc bad c with
          | None => inl 2
@@ -587,6 +592,11 @@ Definition lookup_spec (dc : list N) (bad : list bytes) (cfgs : list (option tcf
       end
   end.
 
+(* what two sites stored under one key must agree on (the compatibility assert demands more) *)
+Definition policy_compatible (x y : tcfg) : bool :=
+  (pmin x =? pmin y) && (pmax x =? pmax y) && (cauth x =? cauth y) &&
+  ((cauth x =? 0) || listB_beq (ccerts x) (ccerts y)).
+
 (* policy equality that matters for the client-certificate clause *)
 Definition same_policy (x y : tcfg) : bool :=
   (cauth x =? cauth y) && listB_beq (ccerts x) (ccerts y).
@@ -725,10 +735,37 @@ Definition judge (c : case) : N :=
       | Some sites =>
           let cfgs := map (fun s => Some (s_tls s)) sites in
           let ml := model_lookup dc [] cfgs [] (Some conn) sni in
+          (* spec, from the observations alone.  On the wire: version inside the range of a most
+             specific site, certificate asked iff that site's policy says so, a site that demands
+             certificates only answers on a connection where one was asked for; an instance that
+             started has no TLS/plaintext mix and no two sites under one key with different
+             protocol ranges or client-certificate policies *)
+          let cs := some_cfgs cfgs in
+          let rk c := srank [] (Some conn) sni (key_of (host c)) in
+          let most_specific c := forallb (fun c' => opt_le (rk c) (rk c')) cs in
+          let spec_started :=
+            negb (mixed cfgs) &&
+            forallb (fun c => forallb (fun c' => negb (beq (key_of (host c)) (key_of (host c'))) ||
+                                                 policy_compatible c c') cs) cs &&
+            ((obs_version =? 0) ||
+             ((cmin <=? obs_version) && (obs_version <=? cmax) &&
+              existsb (fun c => most_specific c && (pmin c <=? obs_version) &&
+                                (obs_version <=? pmax c) &&
+                                Bool.eqb obs_asked (negb (cauth c =? 0))) cs)) &&
+            match obs with
+            | SServed i => match nth_error sites i with
+                           | Some s => negb (demands (s_tls s)) || obs_asked
+                           | None => false end
+            | _ => true
+            end in
+          let spec :=
+            if obs_start =? 0 then spec_started
+            else if obs_start =? 8 then negb (mixed cfgs)                 (* plaintext listener *)
+            else lookup_spec dc [] cfgs [] (Some conn) sni (LErr obs_start) in
           match fst ml with
-          | Some (LErr e) => verdict (obs_start =? e) (lookup_spec dc [] cfgs [] (Some conn) sni (LErr obs_start))
-          | Some LNil => verdict (obs_start =? 8) (negb (mixed cfgs))     (* plaintext listener *)
-          | Some (LNone) => verdict false true
+          | Some (LErr e) => verdict (obs_start =? e) spec
+          | Some LNil => verdict (obs_start =? 8) spec
+          | Some (LNone) => verdict false spec
           | fb =>
               (* the governing config: the one found, or any config of the group on failover *)
               let cands := match fb with
@@ -743,25 +780,6 @@ Definition judge (c : case) : N :=
                 let out := if v =? 0 then SNoSite else sobs_of (serve sites (Some sni) rhost) in
                 (obs_version =? v) && Bool.eqb obs_asked asked && sobs_beq out obs in
               let agree := (obs_start =? 0) && existsb predicted cands in
-              (* spec on the wire: version inside the range of a most specific site, certificate
-                 asked iff that site's policy says so, and a site that demands certificates only
-                 answers on a connection where one was asked for *)
-              let cs := some_cfgs cfgs in
-              let rk c := srank [] (Some conn) sni (key_of (host c)) in
-              let most_specific c := forallb (fun c' => opt_le (rk c) (rk c')) cs in
-              let spec :=
-                (obs_start =? 0) && negb (mixed cfgs) &&
-                ((obs_version =? 0) ||
-                 ((cmin <=? obs_version) && (obs_version <=? cmax) &&
-                  existsb (fun c => most_specific c && (pmin c <=? obs_version) &&
-                                    (obs_version <=? pmax c) &&
-                                    Bool.eqb obs_asked (negb (cauth c =? 0))) cs)) &&
-                match obs with
-                | SServed i => match nth_error sites i with
-                               | Some s => negb (demands (s_tls s)) || obs_asked
-                               | None => false end
-                | _ => true
-                end in
               verdict agree spec
           end
       end
